@@ -128,7 +128,9 @@ class Handler(BaseHTTPRequestHandler):
             good = BODIES[sc['good']]
             if beh == 'garbage':
                 return self._send(200, b'<html><body>no such file</body></html>')
-            h = hashlib.md5(good if beh in ('correct', 'upper', 'latin1', 'latin1_undeclared', 'multi', 'bare', 'nolength', 'gzip_md5') else b'something else').hexdigest()
+            h = hashlib.md5(good if beh in ('correct', 'upper', 'latin1', 'latin1_undeclared', 'multi', 'bare', 'nolength', 'gzip_md5', 'bare_nl', 'tabbed') else b'something else').hexdigest()
+            if beh in ('bare_nl', 'tabbed'):      # formats the client may or may not understand: only the safety clause is judged
+                return self._send(200, (h + ('\n' if beh == 'bare_nl' else '\tfile.bin\n')).encode())
             if beh == 'bare':          # only the 32 hex digits: no file name, no line break
                 return self._send(200, h.encode())
             if beh == 'nolength':      # a body delimited by closing the connection (no Content-Length header)
@@ -221,7 +223,7 @@ def run_shard(desc, ctx):
     # is judged for these (a normal return must leave a file matching the published digest)
     extra += [{'data': dd, 'md5': mm, 'prior': pr, 'good': 'good', 'head': 'ok'}
               for dd in (['corrupt', 'corrupt'], ['corrupt'], ['good'], ['corrupt', 'good'])
-              for mm in ('upper', 'garbage') for pr in ('absent', 'corrupt')]
+              for mm in ('upper', 'garbage', 'bare_nl', 'tabbed') for pr in ('absent', 'corrupt')]
     hist = [
         [{'data': ['good'], 'md5': 'correct'}, {'data': ['corrupt', 'corrupt'], 'md5': 'correct', 'mutate': 'corrupt'}],
         [{'data': ['good'], 'md5': 'correct'}, {'data': ['corrupt', 'good'], 'md5': 'correct', 'mutate': 'corrupt'}],
@@ -424,7 +426,7 @@ def run_case(case, ctx, shared=None):
                      (case['md5'] if isinstance(case['md5'], list) else [case['md5']]))
         if r.ok and all_md5_ok:
             last = md5_served[-1]
-            pub = {'correct': published, 'upper': published, 'latin1': published, 'latin1_undeclared': published, 'multi': published, 'bare': published, 'nolength': published, 'gzip_md5': published, 'garbage': None}.get(
+            pub = {'correct': published, 'upper': published, 'latin1': published, 'latin1_undeclared': published, 'multi': published, 'bare': published, 'nolength': published, 'gzip_md5': published, 'bare_nl': published, 'tabbed': published, 'garbage': None}.get(
                 last, hashlib.md5(b'something else').hexdigest())
             if final is None or hashlib.md5(final).hexdigest() != pub:
                 ctx.violation('returned_with_bad_checksum', case,
